@@ -124,6 +124,8 @@ def call(fn, *args, cpu=60, mem_gb=6, wall=None, quiet=True):
             os.close(r)
             signal.signal(signal.SIGINT, signal.SIG_DFL)
             _child_setup(scratch, cpu, mem_gb, quiet)
+            if _SNAP is not None and _LOCAL_READY:
+                reset_globals()        # the parent may have run the tool in-process: start from the pristine snapshot
             try:
                 val = ("ok", fn(*args))
             except CaseTimeout as e:
@@ -196,8 +198,14 @@ class CaseTimeout(BaseException):
     pass
 
 
+_ARMED = [False]
+
+
 def _on_alarm(signum, frame):
-    raise CaseTimeout()
+    # only while a tool call is in progress: a (repeating) timer that fires after the call has returned, inside the
+    # harness' own handlers, must not escape as an exception
+    if _ARMED[0] or signum == signal.SIGXCPU:
+        raise CaseTimeout()
 
 
 _SNAP = None
@@ -211,10 +219,49 @@ def _stateful_modules():
     return [importlib.import_module(n) for n in names]
 
 
+def _hidden_state_holders():
+    """mutable state of the tool that lives outside module globals: mutable default arguments of functions / methods and
+    mutable class attributes, in every module of the repository that is loaded -> list of (label, container)"""
+    import types
+    out = []
+    seen = set()
+
+    def add(label, obj):
+        if isinstance(obj, (dict, list, set)) and id(obj) not in seen:
+            seen.add(id(obj))
+            out.append((label, obj))
+
+    def scan_function(label, f):
+        for i, d in enumerate(getattr(f, "__defaults__", None) or ()):
+            add("%s default#%d" % (label, i), d)
+        for k, d in (getattr(f, "__kwdefaults__", None) or {}).items():
+            add("%s kwdefault %s" % (label, k), d)
+    for name, m in sorted(sys.modules.items()):
+        f = getattr(m, "__file__", None)
+        if not f or not os.path.abspath(f).startswith(REPO + os.sep):
+            continue
+        for k, v in list(vars(m).items()):
+            if isinstance(v, types.FunctionType) and v.__module__ == name:
+                scan_function("%s.%s" % (name, k), v)
+            elif isinstance(v, type) and v.__module__ == name:
+                for ck, cv in list(vars(v).items()):
+                    if ck.startswith("__"):
+                        continue
+                    fn = cv.__func__ if isinstance(cv, (staticmethod, classmethod)) else cv
+                    if isinstance(fn, types.FunctionType):
+                        scan_function("%s.%s.%s" % (name, k, ck), fn)
+                    else:
+                        add("%s.%s.%s" % (name, k, ck), cv)
+    return out
+
+
+_HIDDEN = None
+
+
 def snapshot_globals():
-    """remember the data globals of GASOL's stateful modules as they are in a process that has
-    imported the tool but processed nothing"""
-    global _SNAP
+    """remember the data globals of GASOL's stateful modules, and the hidden mutable state (default arguments, class
+    attributes) of every repository module, as they are in a process that has imported the tool but processed nothing"""
+    global _SNAP, _HIDDEN
     import copy
     if _SNAP is not None:
         return
@@ -229,7 +276,37 @@ def snapshot_globals():
             except Exception:
                 pass
         snap[m.__name__] = d
+    def plain(x):
+        if isinstance(x, (str, int, float, bool, bytes, type(None))):
+            return True
+        if isinstance(x, dict):
+            return all(plain(k) and plain(v) for k, v in x.items())
+        if isinstance(x, (list, tuple, set, frozenset)):
+            return all(plain(e) for e in x)
+        return False
+    hidden = []
+    for label, obj in _hidden_state_holders():
+        if "._member_" in label or "._value2member_map_" in label or "._unhashable_values_" in label or not plain(obj):
+            continue          # enum internals / registries of live objects are not data
+        hidden.append((label, obj, copy.deepcopy(obj)))
+    _HIDDEN = hidden
     _SNAP = snap
+
+
+def _restore_hidden():
+    import copy
+    for label, obj, pristine in _HIDDEN or ():
+        if obj == pristine:
+            continue
+        fresh = copy.deepcopy(pristine)
+        if isinstance(obj, dict):
+            obj.clear()
+            obj.update(fresh)
+        elif isinstance(obj, list):
+            obj[:] = fresh
+        else:
+            obj.clear()
+            obj.update(fresh)
 
 
 def local_init():
@@ -256,6 +333,7 @@ def reset_globals():
             if k in ("tmp_path",):
                 continue
             cur[k] = copy.deepcopy(v)
+    _restore_hidden()
     gasol_asm.init()
 
 
@@ -272,21 +350,26 @@ def local(fn, *args, timeout=20, reset=True):
     t0 = time.process_time()
     try:
         try:
+            _ARMED[0] = True
             val = fn(*args)
+            _ARMED[0] = False
             signal.setitimer(signal.ITIMER_REAL, 0)
             return Result("ok", val, None, time.process_time() - t0)
         except CaseTimeout as e:
+            _ARMED[0] = False
             tb = traceback.extract_tb(e.__traceback__)
             return Result("timeout", None, ("in-process soft timeout %ss" % timeout, [(f.filename, f.lineno, f.name) for f in tb][-60:]),
                           time.process_time() - t0)
         except SystemExit as e:
             return Result("ok", None, "exit %r" % (e.code,), time.process_time() - t0)
         except BaseException as e:  # noqa
+            _ARMED[0] = False
             signal.setitimer(signal.ITIMER_REAL, 0)
             tb = traceback.extract_tb(e.__traceback__)
             return Result("exc", None, (type(e).__name__, str(e)[:500], [(f.filename, f.lineno, f.name) for f in tb][-12:]),
                           time.process_time() - t0)
     finally:
+        _ARMED[0] = False
         signal.setitimer(signal.ITIMER_REAL, 0)
         signal.signal(signal.SIGALRM, old)
 
